@@ -11,6 +11,7 @@ import itertools
 
 import numpy as np
 
+from .common import as_ufunc_global
 from .common import And, Case, all_exact, band, call, check_names, close, distinct_scales, elements, exact_eq, payload
 
 LEVEL = "other"
@@ -315,7 +316,8 @@ class ObjUfunc:
         cands = [i for i in inputs if isinstance(i, np.ndarray) and type(i) is not np.ndarray]
         cands.sort(key=lambda c: -len(type(c).__mro__))  # stable: subclasses first, ties left to right
         for c in cands:
-            r = c.__array_ufunc__(self, "__call__", *inputs)
+            with as_ufunc_global(self.mods, self):
+                r = c.__array_ufunc__(self, "__call__", *inputs)
             if r is not NotImplemented:
                 return r
         if not cands:
@@ -333,6 +335,7 @@ def ufunc_of(ctx, name):
         if name not in _OBJ_UFUNCS:
             elem = (lambda a: a.modf()) if name == "modf" else (lambda a, b: divmod(a, b))
             _OBJ_UFUNCS[name] = ObjUfunc(real, elem)
+            _OBJ_UFUNCS[name].mods = ctx.mods
         return _OBJ_UFUNCS[name].dispatch
     return real
 
